@@ -1,7 +1,7 @@
 """Prints the markdown table of seeded changes for DESIGN.md §10.5 from seeded/*/meta.json."""
 import json, glob, os
 rows = []
-for p in sorted(glob.glob(os.path.join(os.path.dirname(os.path.dirname(os.path.abspath(__file__))), "seeded", "*", "meta.json"))):
+for p in sorted(glob.glob(os.path.join(os.path.dirname(os.path.dirname(os.path.abspath(__file__))), "seeded", "C*", "meta.json"))):
     m = json.load(open(p))
     desc = " ".join(m["description"].split())
     desc = desc.split(" - ", 1)[-1] if desc[:3] in ("m1:", "m2:") else desc
